@@ -225,6 +225,10 @@ pub enum Pay {
     PBIG,
     /// 64 bytes, 64-byte aligned, tagged
     PA64,
+    /// 8 200 bytes, tagged: beyond any page-sized "large message" threshold.  Not a member of
+    /// the profile lists: a case whose class decodes to PBIG becomes PHUGE when bit 7 of the
+    /// salt byte is set (so existing cases keep their decoding and shrinking leads to PBIG)
+    PHUGE,
     /// tagged payload whose destructor re-enters the channel (calls `len()` on a live handle),
     /// like a message that owns a handle of its own channel
     PH,
@@ -248,6 +252,7 @@ impl Pay {
             Pay::PB => "PB",
             Pay::PBIG => "PBIG",
             Pay::PA64 => "PA64",
+            Pay::PHUGE => "PHUGE",
             Pay::PH => "PH",
         }
     }
@@ -345,7 +350,10 @@ impl Case {
         let cap = p.caps[(self.cfg[0] as usize * p.caps.len()) >> 8];
         let async_ctor = self.cfg[1] & 1 != 0;
         let parallelism = parallelism_of(self.cfg[1]);
-        let pay = p.pays[(self.cfg[2] as usize * p.pays.len()) >> 8];
+        let mut pay = p.pays[(self.cfg[2] as usize * p.pays.len()) >> 8];
+        if pay == Pay::PBIG && self.cfg[5] & 0x80 != 0 {
+            pay = Pay::PHUGE;
+        }
         let mut grants = Vec::new();
         for i in 0..nt {
             let byte = self.cfg[3 + (i / 2) % 2];
